@@ -13,8 +13,12 @@ cd $W/repo
 git checkout -q --detach $(git -C /repo rev-parse HEAD); git checkout -- .; git clean -fdq
 BASE=$(git rev-parse --short HEAD)
 install_demo() {
-  ( cd $SRC/demo$N && find . -type f ! -name '*.diff' | while read f; do mkdir -p "$W/repo/$(dirname $f)"; cp "$f" "$W/repo/$f"; done )
-  for d in $SRC/demo$N/*.diff; do [ -e "$d" ] && git apply "$d"; done
+  if ls $SRC/demo$N/*.diff >/dev/null 2>&1; then
+    # the demo ships as a diff (new file + mod line in a binary crate): apply only the diff
+    for d in $SRC/demo$N/*.diff; do git apply "$d" || echo "demo diff $d does not apply"; done
+  else
+    ( cd $SRC/demo$N && find . -type f | while read f; do mkdir -p "$W/repo/$(dirname $f)"; cp "$f" "$W/repo/$f"; done )
+  fi
 }
 # which test targets does the demo add?
 DEMO_ARGS=""
@@ -26,6 +30,10 @@ for f in $(cd $SRC/demo$N && find . -path '*/src/*.rs' -type f); do
 done
 run_demo() { # returns 0 if all demo targets pass
   local ok=0
+  for py in $(cd $SRC/demo$N && find . -name '*.py' -type f); do
+    cargo build --offline -p harper-ls > $W/demo-build.log 2>&1
+    ( cd $W/repo && HARPER_LS=$W/target/debug/harper-ls PATH=$W/target/debug:$PATH python3 $SRC/demo$N/$py > $W/demo.log 2>&1 ) || ok=1
+  done
   IFS='|' read -ra A <<< "$DEMO_ARGS"
   for a in "${A[@]}"; do [ -z "$a" ] && continue
     cargo test --offline $a > $W/demo.log 2>&1 || ok=1
